@@ -295,3 +295,35 @@ Definition C13_commit (r_blind : bool) (g : cfg) (sg : seg) (sn : snap) : bool :
           (sn_vt sn).
 
 Definition C13_prop : core_case -> bool := walk_case (C13_commit true) no_rb.
+
+(* ------------------------------------------------------------------ C10 *)
+Definition pair_eqb (a b : Z * list Z) : bool := (fst a =? fst b) && list_eqb Z.eqb (snd a) (snd b).
+Definition newest_arow (av : list arow) (x : Z * list Z) : option arow :=
+  fold_left (fun acc r =>
+     if pair_eqb (a_tab r, a_key r) x
+     then match acc with None => Some r | Some a => if a_tx a <? a_tx r then Some r else acc end
+     else acc) av None.
+
+Definition C10_commit (g : cfg) (sg : seg) (sn : snap) : bool :=
+  (* replaying all rows yields exactly the live links *)
+  forallb (fun x => match newest_arow (sn_av sn) x with
+                    | Some r => negb (a_op r =? OP_DEL) | None => false end) (sn_alive sn) &&
+  forallb (fun r => match newest_arow (sn_av sn) (a_tab r, a_key r) with
+                    | Some n => (a_op n =? OP_DEL) || existsb (pair_eqb (a_tab r, a_key r)) (sn_alive sn)
+                    | None => false end) (sn_av sn) &&
+  (* rows of earlier transactions are untouched, so replaying up to any earlier id is unchanged *)
+  set_eqb arow_eqb (filter (fun r => memZ (sn_tx (sg_before sg)) (a_tx r)) (sn_av sn)) (sn_av (sg_before sg)) &&
+  (* the rows of this transaction: one id, only for touched pairs, operation type INSERT or DELETE *)
+  forallb (fun r => existsb (pair_eqb (a_tab r, a_key r)) (sg_assoc sg) &&
+                    ((a_op r =? OP_INS) || (a_op r =? OP_DEL))) (new_arows sg sn) &&
+  forallb (fun r => Nat.eqb (length (filter (fun r' => pair_eqb (a_tab r', a_key r') (a_tab r, a_key r) && (a_tx r' =? a_tx r))
+                                    (sn_av sn))) 1) (sn_av sn).
+
+Definition C10_prop (c : core_case) : bool :=
+  walk_case C10_commit C02_rollback c && (cc_outdiff c =? 0)%nat.
+
+(* ------------------------------------------------------------------ C07 *)
+(* identical outcomes and identical application tables with and without versioning; the live tables
+   of every snapshot are additionally tied to the trace-defined tables by Core_corr *)
+Definition C07_prop (c : core_case) : bool :=
+  negb (cc_exc c) && (cc_outdiff c =? 0)%nat && negb (cc_livediff c).
